@@ -105,10 +105,10 @@ BOUNDED = {
                   "operation is generated with its own parameter; a bad one that is not overridden drops the operation with a diagnostic",
         bound="3 locations x 3 kinds of bad path-item parameter x overridden or not"),
     "path_order": dict(
-        unit="generate(): operations that share a body model / an inline enum class / a response component",
+        unit="generate(): operations that share a body model / an inline enum class / a response component / a component parameter",
         where="openapi_python_client/parser/bodies.py",
         statement="reordering the entries of `paths` changes no generated file (documents that generate without diagnostics)",
-        bound="3 families of 3 path items, all 6 orders each"),
+        bound="4 families of 3 path items, all 6 orders each"),
     "shared_bad_component": dict(
         unit="openapi_python_client.parser.properties.schemas:parameter_from_reference / EndpointCollection.from_data (diagnostic objects)",
         where="openapi_python_client/parser/openapi.py",
